@@ -781,7 +781,7 @@ def gen_src(unit_name):
 GEN_SRC = {n: gen_src(n) for n in ("SrcKmpLps", "SrcShiftAndMasks", "SrcHorspoolNew", "SrcFenwick", "SrcBitEnc", "SrcBwt", "SrcPrescan")}
 
 # genpm: search loops of the exact matchers (C08) and distance functions (C09)
-GEN_SRC.update({n: gen_src(n) for n in ("SrcShiftAndNext", "SrcKmpNext", "SrcHorspoolNext")})
+GEN_SRC.update({n: gen_src(n) for n in ("SrcShiftAndNext", "SrcKmpNext", "SrcHorspoolNext", "SrcBndmNext")})
 
 
 # ------------------------------------------------------------------------------------------ theorem modules built here
@@ -837,7 +837,7 @@ EXTRACTORS = {
 }
 
 # genpm: `Matches::next` of the exact matchers; Thm/C08.lean imports RbV.Thm.GenSrc*Next and restates the theorems
-EXTRACTORS["C08"] = EXTRACTORS["C08"] + [GEN_SRC[n] for n in ("SrcShiftAndNext", "SrcKmpNext", "SrcHorspoolNext")]
+EXTRACTORS["C08"] = EXTRACTORS["C08"] + [GEN_SRC[n] for n in ("SrcShiftAndNext", "SrcKmpNext", "SrcHorspoolNext", "SrcBndmNext")]
 
 
 def main():
